@@ -169,7 +169,9 @@ func runC09(r *vk.Run) {
 			if rng.Chance(1, 4) {
 				end += int64(step) / 2 // end not on the grid
 			}
-			return EvalP{Start: start, End: end, Step: step}
+			// the entry limit belongs to log queries; whatever value the command line passed, a metric
+			// query aggregates every sample of its windows
+			return EvalP{Start: start, End: end, Step: step, Limit: vk.Pick(rng, []int{0, -1, 1, 3, 1000, 2})}
 		}
 		main := mk()
 		grids = append(grids, grid{main, "main"})
@@ -178,8 +180,8 @@ func runC09(r *vk.Run) {
 		shared := vk.Pick(rng, times)
 		step2 := vk.Pick(rng, c09Steps)
 		back := int64(rng.Intn(4))
-		g2 := EvalP{Start: shared - back*int64(step2), End: shared + int64(rng.Intn(3))*int64(step2), Step: step2}
-		grids = append(grids, grid{g2, "shifted"}, grid{EvalP{Start: shared, End: shared}, "instant"})
+		g2 := EvalP{Start: shared - back*int64(step2), End: shared + int64(rng.Intn(3))*int64(step2), Step: step2, Limit: vk.Pick(rng, []int{0, -1, 2, 5})}
+		grids = append(grids, grid{g2, "shifted"}, grid{EvalP{Start: shared, End: shared, Limit: vk.Pick(rng, []int{0, -1, 1, 4})}, "instant"})
 		valuesAtShared := map[string]map[string]float64{}
 		edge := false
 		for _, g := range grids {
